@@ -766,27 +766,58 @@ class Interp:
         return None
 
     def _live_slot(self, iter_node, cfg, it):
-        """Heap slot of a list object iterated in place (``for x in self.items``): Python's list iterator reads the live list by index."""
-        if not (isinstance(iter_node, ast.Attribute) and isinstance(it, ListV) and it.kind == "list"):
+        """Description of a container iterated in place: ``for x in self.items`` (list object in the heap) or
+        ``for k, v in <chain>.items()`` / ``<chain>`` where <chain> is an attribute/subscript chain rooted at a heap object (dict).
+        Python's list iterator reads the live list by index; a dict iterator raises RuntimeError when the size changed."""
+        view = None
+        expr = iter_node
+        if isinstance(iter_node, ast.Call) and isinstance(iter_node.func, ast.Attribute) and iter_node.func.attr in ("items", "keys", "values") and not iter_node.args:
+            view = iter_node.func.attr
+            expr = iter_node.func.value
+        root = expr
+        while isinstance(root, (ast.Attribute, ast.Subscript)):
+            root = root.value
+        if not (isinstance(expr, (ast.Attribute, ast.Subscript)) and isinstance(root, ast.Name)):
             return None
         sub = Out()
-        bases = self.ev(iter_node.value, cfg, sub)
-        if len(bases) == 1 and isinstance(bases[0][1], ObjV) and f"{bases[0][1].oid}.{iter_node.attr}" in cfg.heap:
-            return f"{bases[0][1].oid}.{iter_node.attr}"
+        rv = self.ev(root, cfg, sub)
+        if len(rv) != 1 or not isinstance(rv[0][1], (ObjV, ClassV)):
+            return None
+        cur = self.ev(expr, cfg, sub)
+        if len(cur) != 1:
+            return None
+        val = cur[0][1]
+        if view is None and isinstance(val, ListV) and val.kind == "list":
+            return (expr, None, None)
+        if isinstance(val, DictV):
+            return (expr, view or "keys", len(val.items))
         return None
 
     def _loop_live(self, stmt, cfg, slot, out):
+        expr, view, size0 = slot
         cur = [cfg]
         i = 0
         done = []
         while cur and i < 64:
             nxt = {}
             for c in cur:
-                lst = c.heap.get(slot)
-                if not isinstance(lst, ListV) or i >= len(lst.items):
+                sub = Out()
+                vals = self.ev(expr, c, sub)
+                cont = vals[0][1] if len(vals) == 1 else None
+                if view is None:
+                    items = list(cont.items) if isinstance(cont, ListV) else []
+                else:
+                    if not isinstance(cont, DictV):
+                        done.append(c)
+                        continue
+                    if len(cont.items) != size0:
+                        out.add("raise", c.set("$exc", ExcV("RuntimeError", f"dictionary changed size during iteration L{stmt.lineno}")))
+                        continue
+                    items = [ListV((k, v), "tuple") if view == "items" else (k if view == "keys" else v) for k, v in cont.items]
+                if i >= len(items):
                     done.append(c)
                     continue
-                for c1 in self.assign(stmt.target, lst.items[i], c, out):
+                for c1 in self.assign(stmt.target, items[i], c, out):
                     o = self.exec_block(stmt.body, [c1])
                     for c2 in o.get("normal") + o.get("continue"):
                         nxt.setdefault(c2, None)
